@@ -1,9 +1,28 @@
 import Driver.Util
-open Lean
+import Driver.C03
+import Torf.Model.Callbacks
+open Lean Torf.Callbacks
 namespace Driver.C12
 
-/-- ops of property C12: `c12.<name>` -/
-def handle (op : String) (_j : Json) : Except String Json :=
-  throw s!"unknown op {op}"
+/-- op `c12.calls`: {verify, interval, total, evs: [[piece, kind, nexc, now], …]} (interval and
+    now in eighths of a second, integers) ↦ the calls of the user callback -/
+def callsOp (j : Json) : Except String Json := do
+  let verify ← getBool j "verify"
+  let interval ← getInt j "interval"
+  let total ← getNat j "total"
+  let evs ← (← getArr j "evs").mapM fun x => do
+    let a ← x.getArr?
+    if h : a.size = 4 then
+      return ({ piece := (← a[0].getNat?), kind := (← C03.parseKind (← a[1].getStr?)),
+                nexc := (← a[2].getNat?), now := (← a[3].getInt?) } : Ev)
+    else throw "event must have 4 fields"
+  let cs := calls verify interval total evs
+  return jobj [("calls", jarr (cs.map fun c => jarr [jnat c.done, jnat c.piece, jopt jnat c.exc])),
+               ("forced", jarr ((forcedErrorCalls evs).map fun c => jarr [jnat c.done, jnat c.piece, jopt jnat c.exc]))]
+
+def handle (op : String) (j : Json) : Except String Json :=
+  match op with
+  | "c12.calls" => callsOp j
+  | _ => throw s!"unknown op {op}"
 
 end Driver.C12
